@@ -9,7 +9,6 @@ import (
 	"strings"
 
 	"github.com/AdguardTeam/urlfilter"
-	"github.com/AdguardTeam/urlfilter/filterlist"
 	"github.com/AdguardTeam/urlfilter/rules"
 )
 
@@ -163,7 +162,11 @@ func cmdReplayHosts(args []string) error {
 						listID = 0
 						list = line + "\n" + strings.Replace(list, line+"\n", "", 1)
 					}
-					st, err := filterlist.NewRuleStorage([]filterlist.RuleList{&filterlist.StringRuleList{ID: listID, RulesText: list}})
+					// every 4th list ends with the tested line (and, depending on the layout, without a line break)
+					if lines%4 == 3 && !withLong && !withRepeat && listID != 0 {
+						list = strings.Replace(list, line+"\n", "", 1) + line
+					}
+					st, err := layoutStorage([]string{list}, []int{listID})
 					if err != nil {
 						return err
 					}
